@@ -924,3 +924,154 @@ pub fn op_build_tag(what: &str, line: &str) -> String {
     }
     finish(tokens(line).and_then(|t| f(&t)))
 }
+
+// ------------------------------------------------------------ ctor:<T>
+
+/// `ctor:<T>`; payload = ONE line of blank-separated `k=v` tokens: the public constructors (`new`, `with_…`, `From`) that are
+/// not builders. Answers like `tag:` / `type:` (observation, written text, version, re-parse of the text).
+pub fn op_ctor(what: &str, line: &str) -> String {
+    if line.contains('\n') {
+        return BAD_OP.to_string();
+    }
+    finish(tokens(line).and_then(|t| ctor(what, &t)))
+}
+
+fn tok<'a>(toks: &[&'a str], key: &str) -> Option<&'a str> {
+    toks.iter().filter_map(|t| t.split_once('=')).find(|(k, _)| *k == key).map(|(_, v)| v)
+}
+
+fn ctor(what: &str, toks: &[&str]) -> Res<String> {
+    use crate::kinds::*;
+    let need = |k: &str| tok(toks, k).ok_or(Fail::Bad);
+    let known = |allowed: &[&str]| -> Res<()> {
+        for t in toks {
+            let (k, _) = kv(t)?;
+            if !allowed.contains(&k) {
+                return Err(Fail::Bad);
+            }
+        }
+        Ok(())
+    };
+    Ok(match what {
+        "ExtXStart" => {
+            known(&["t", "precise"])?;
+            let f = p_float(need("t")?)?;
+            let v = match tok(toks, "precise") {
+                None => ExtXStart::new(f),
+                Some(p) => ExtXStart::with_precise(f, p_bool(p)?),
+            };
+            value_response::<TExtXStart>(&v, Layout::Tag)
+        }
+        "ExtXSessionData" => {
+            known(&["id", "value", "uri", "lang"])?;
+            let id = p_text(need("id")?)?;
+            let data = match (tok(toks, "value"), tok(toks, "uri")) {
+                (Some(v), None) => SessionData::Value(Cow::Owned(p_text(v)?)),
+                (None, Some(u)) => SessionData::Uri(Cow::Owned(p_text(u)?)),
+                _ => return Err(Fail::Bad),
+            };
+            let v = match tok(toks, "lang") {
+                None => ExtXSessionData::new(id, data),
+                Some(l) => ExtXSessionData::with_language(id, data, p_text(l)?),
+            };
+            value_response::<TExtXSessionData>(&v, Layout::Tag)
+        }
+        "DecryptionKey" | "ExtXSessionKey" | "ExtXKey" => {
+            known(&["method", "uri"])?;
+            let k = DecryptionKey::new(p_method(need("method")?)?, p_text(need("uri")?)?);
+            match what {
+                "DecryptionKey" => value_response::<KDecryptionKey>(&k, Layout::Tag),
+                "ExtXSessionKey" => value_response::<TExtXSessionKey>(&ExtXSessionKey::new(k), Layout::Tag),
+                _ => value_response::<TExtXKey>(&ExtXKey::new(k), Layout::Tag),
+            }
+        }
+        "ExtXDateRange" => {
+            known(&["id", "start"])?;
+            let v = ExtXDateRange::new(p_text(need("id")?)?, p_text(need("start")?)?);
+            value_response::<TExtXDateRange>(&v, Layout::Tag)
+        }
+        "ExtXMedia" => {
+            known(&["type", "group", "name"])?;
+            let ty = match need("type")? {
+                "AUDIO" => MediaType::Audio,
+                "VIDEO" => MediaType::Video,
+                "SUBTITLES" => MediaType::Subtitles,
+                "CLOSED-CAPTIONS" => MediaType::ClosedCaptions,
+                _ => return Err(Fail::Bad),
+            };
+            let v = ExtXMedia::new(ty, p_text(need("group")?)?, p_text(need("name")?)?);
+            value_response::<TExtXMedia>(&v, Layout::Tag)
+        }
+        "StreamData" => {
+            known(&["bw"])?;
+            let v = StreamData::new(p_u64(need("bw")?)?);
+            value_response::<KStreamData>(&v, Layout::Tag)
+        }
+        "Channels" => {
+            known(&["n"])?;
+            let v = Channels::new(p_u64(need("n")?)?);
+            value_response::<KChannels>(&v, Layout::Type)
+        }
+        "Codecs" => {
+            known(&["list"])?;
+            let v = match tok(toks, "list") {
+                None => Codecs::new(),
+                Some(l) => Codecs::from(p_text(l)?.split(',').map(str::to_string).collect::<Vec<_>>()),
+            };
+            value_response::<KCodecs>(&v, Layout::Type)
+        }
+        "ExtXVersion" => {
+            known(&["v"])?;
+            let pv = match need("v")? {
+                "1" => hls_m3u8::types::ProtocolVersion::V1,
+                "2" => hls_m3u8::types::ProtocolVersion::V2,
+                "3" => hls_m3u8::types::ProtocolVersion::V3,
+                "4" => hls_m3u8::types::ProtocolVersion::V4,
+                "5" => hls_m3u8::types::ProtocolVersion::V5,
+                "6" => hls_m3u8::types::ProtocolVersion::V6,
+                "7" => hls_m3u8::types::ProtocolVersion::V7,
+                _ => return Err(Fail::Bad),
+            };
+            value_response::<TExtXVersion>(&hls_m3u8::tags::ExtXVersion::new(pv), Layout::Tag)
+        }
+        "ExtInf" => {
+            known(&["dur", "title"])?;
+            let d = p_dur(need("dur")?)?;
+            let v = match tok(toks, "title") {
+                None => ExtInf::new(d),
+                Some(t) => ExtInf::with_title(d, p_text(t)?),
+            };
+            value_response::<TExtInf>(&v, Layout::Tag)
+        }
+        "ExtXMap" => {
+            known(&["uri", "range"])?;
+            let u = p_text(need("uri")?)?;
+            let v = match tok(toks, "range") {
+                None => ExtXMap::new(u),
+                Some(r) => {
+                    let (len, start) = p_len_at_start(r)?;
+                    ExtXMap::with_range(u, start..start + len)
+                }
+            };
+            value_response::<TExtXMap>(&v, Layout::Tag)
+        }
+        "ExtXByteRange" => {
+            known(&["range", "to"])?;
+            let v = match (tok(toks, "range"), tok(toks, "to")) {
+                (Some(r), None) => {
+                    let (len, start) = p_len_at_start(r)?;
+                    ExtXByteRange::from(start..start + len)
+                }
+                (None, Some(e)) => ExtXByteRange::from(..p_usize(e)?),
+                _ => return Err(Fail::Bad),
+            };
+            value_response::<TExtXByteRange>(&v, Layout::Tag)
+        }
+        "ExtXProgramDateTime" => {
+            known(&["t"])?;
+            let v = ExtXProgramDateTime::new(p_text(need("t")?)?);
+            value_response::<TExtXProgramDateTime>(&v, Layout::Tag)
+        }
+        _ => return Err(Fail::Bad),
+    })
+}
